@@ -394,8 +394,14 @@ void sqf::fileio::impl_default::add_mapping(std::string_view viewPhysical, std::
         }
     }
 
-    // Add physical path to final tree node
-    tree->physical.push_back(std::filesystem::path(phys).lexically_normal());
+    // Add physical path to final tree node.
+    // A trailing separator would leave an empty last path element, that never matches a path below this directory.
+    auto normalized = std::filesystem::path(phys).lexically_normal();
+    if (!normalized.has_filename() && normalized.has_relative_path())
+    {
+        normalized = normalized.parent_path();
+    }
+    tree->physical.push_back(normalized);
 }
 
 std::string sqf::fileio::impl_default::read_file(sqf::runtime::fileio::pathinfo info) const
